@@ -94,15 +94,14 @@ Section Frame.
 
   Lemma R_wake : forall fuel w H, R H (wake fuel w H).
   Proof.
-    induction fuel as [|f IH]; intros w H; unfold wake; fold wake; [apply R_refl|].
-    destruct w as [c s g|q]; [|apply R_push_xready].
-    set (H1 := if c_alive (gcmd c H) then ucmd c (fun cm => set_ready (c_ready cm ++ [s]) cm) H else H).
-    assert (R1 : R H H1).
-    { subst H1. destruct (c_alive (gcmd c H)); [apply R_ucmd; solve_good | apply R_refl]. }
-    assert (R2 : R H (set_woken g H1)) by (eapply R_trans; [exact R1 | apply R_set_woken]).
-    destruct (c_atomic (gcmd c (set_woken g H1))) as [w'|].
-    - eapply R_trans; [exact R2|]. eapply R_trans; [|apply IH]. apply R_ucmd; solve_good.
-    - eapply R_trans; [exact R2 | apply R_note].
+    induction fuel as [|f IH]; intros w H; unfold wake; fold wake;
+      (destruct w as [c s g|q]; [|apply R_push_xready]);
+      set (H1 := if c_alive (gcmd c H) then ucmd c (fun cm => set_ready (c_ready cm ++ [s]) cm) H else H);
+      (assert (R1 : R H H1) by (subst H1; destruct (c_alive (gcmd c H)); [apply R_ucmd; solve_good | apply R_refl]));
+      (assert (R2 : R H (set_woken g H1)) by (eapply R_trans; [exact R1 | apply R_set_woken]));
+      destruct (c_atomic (gcmd c (set_woken g H1))) as [w'|]; try (eapply R_trans; [exact R2 | apply R_note]).
+    all: try exact R2.
+    eapply R_trans; [exact R2|]. eapply R_trans; [|apply IH]. apply R_ucmd; solve_good.
   Qed.
 
   Lemma R_wake_cell ch H : R H (wake_cell ch H).
